@@ -62,31 +62,31 @@ theorem C17_response (e : Ep) (m : Msg) (h : OutOfPlace e m) :
   | msgReject a b => exact absurd h (by simp [OutOfPlace])
   | sessTerm f r =>
     have hs : e.inSess = false := h
-    simp [onSessTerm, hs, sendReject, sendMessage, kaReset, idleReset, Ep.ownTx]
+    simp [onSessTerm, hs, sendReject, sendMessage, sendReady, kaReset, idleReset, Ep.ownTx]
   | xferRefuse r t =>
     rcases h with hs | hm
-    · simp [onRefuse, hs, sendReject, sendMessage, kaReset, idleReset, Ep.ownTx]
+    · simp [onRefuse, hs, sendReject, sendMessage, sendReady, kaReset, idleReset, Ep.ownTx]
     · have hm' : t ∉ e.txMap := by simpa using hm
-      cases hs : e.inSess <;> simp [onRefuse, hs, hm', sendReject, sendMessage, kaReset, idleReset, Ep.ownTx]
+      cases hs : e.inSess <;> simp [onRefuse, hs, hm', sendReject, sendMessage, sendReady, kaReset, idleReset, Ep.ownTx]
   | xferAck f t l =>
     rcases h with hs | hm | ⟨he, hp⟩
-    · simp [onAck, hs, sendReject, sendMessage, kaReset, idleReset, Ep.ownTx]
+    · simp [onAck, hs, sendReject, sendMessage, sendReady, kaReset, idleReset, Ep.ownTx]
     · have hm' : t ∉ e.txMap := by simpa using hm
-      cases hs : e.inSess <;> simp [onAck, hs, hm', sendReject, sendMessage, kaReset, idleReset, Ep.ownTx]
+      cases hs : e.inSess <;> simp [onAck, hs, hm', sendReject, sendMessage, sendReady, kaReset, idleReset, Ep.ownTx]
     · have hp' : t ∉ e.txPendAck := by simpa using hp
       cases hs : e.inSess <;> by_cases hm : t ∈ e.txMap <;>
-        simp [onAck, hs, hm, he, hp', sendReject, sendMessage, kaReset, idleReset, Ep.ownTx]
+        simp [onAck, hs, hm, he, hp', sendReject, sendMessage, sendReady, kaReset, idleReset, Ep.ownTx]
   | xferSegment f t x d =>
     rcases h with hs | ⟨hst, hrt⟩
-    · simp [onSegment, hs, sendReject, sendMessage, kaReset, idleReset, Ep.ownTx]
+    · simp [onSegment, hs, sendReject, sendMessage, sendReady, kaReset, idleReset, Ep.ownTx]
     · cases hs : e.inSess
-      · simp [onSegment, hs, sendReject, sendMessage, kaReset, idleReset, Ep.ownTx]
+      · simp [onSegment, hs, sendReject, sendMessage, sendReady, kaReset, idleReset, Ep.ownTx]
       · cases hr : e.rxTmp with
-        | none => simp [onSegment, hs, hst, hr, sendReject, sendMessage, kaReset, idleReset, Ep.ownTx]
+        | none => simp [onSegment, hs, hst, hr, sendReject, sendMessage, sendReady, kaReset, idleReset, Ep.ownTx]
         | some p =>
           obtain ⟨t', d'⟩ := p
           have := hrt t' d' hr
-          simp [onSegment, hs, hst, hr, this, sendReject, sendMessage, kaReset, idleReset, Ep.ownTx]
+          simp [onSegment, hs, hst, hr, this, sendReject, sendMessage, sendReady, kaReset, idleReset, Ep.ownTx]
 
 /-- **A contact header with wrong magic or version closes the connection** (and nothing is processed). -/
 theorem C17_bad_contact_closes (e : Ep) (c : Bytes) (hc : e.closed = false)
